@@ -11,10 +11,59 @@ BASE_NOTE = ('Trusted: Coq 8.16.1 kernel, vm_compute (no native_compute), no axi
              'virtual clock constant during one process() call. ')
 
 CLAIMED = {
-    'C09': dict(text='Theorems for all addresses / identifiers / frames: is_for_me <-> documented reception condition (C09_iff), rejected frames are no-ops of the reception loop (C09_ignore), emitted id/prefix are the documented ones and are accepted by the mirrored address for physical and functional target types (C09_emit_*, C09_mirror), Functional send accepted iff the payload fits a Single Frame and a refused send queues nothing (C09_func*), validation = documented table (C09_validate). The tie to /repo is the exhaustive-per-address table comparison and through-layer campaigns run on every check.',
-                design='4 (C09)', note='identifiers quantified over 0 <= id < 2^29; "every emitted frame carries id/prefix" for frames held in rate-limiter standby relies on the tx invariant proved for C02.'),
+    'C02': dict(design='4 (C02)',
+        text='Theorems (all configurations, all payloads): every frame of the reference segmentation Spec.Segment.seg is well formed (C02_wellformed); a request that fits produces exactly the Single Frame of the Spec, padded/DLC-rounded as documented (C02_single); otherwise the First Frame of the Spec incl. the 32-bit escape form (C02_first_frame); every later data frame is the next Consecutive Frame of the Spec with the running sequence number (C02_consecutive_frame); refused sends queue nothing (C02_refuse). Tied to /repo by campaigns comparing every emitted frame with the extracted Spec segmentation (cooperative peer, standby/rate-limited, boundary lengths, >4095 escape, 2^32 refusal).',
+        note='The per-frame theorems are one-step facts about start_request / tx_cf composed over a run by the campaign, not by an inductive whole-run theorem; the equality "concatenation of all frames = seg c p" for a complete run is checked, not proved.'),
+    'C03': dict(design='4 (C03)',
+        text='Theorem C03_reassembly: for every configuration and every well-formed stream (FF + consecutive CFs, any block size, any prefix, any link-layer size, short or escape FF) fed with timers kept, the receiver ends idle with exactly the payload queued, no error; C03_flow_control_frame: the FC sent is CTS with the configured blocksize/stmin, padded per configuration. Induction over the CF list, unbounded length. Tied to /repo by stream campaigns (reference encoder independent of the model) and the K1 correspondence.',
+        note='Stream well-formedness (wf_stream) is a Spec predicate; block boundaries and the exact instants of the flow-control frames are covered by fc_answer (one-step) and by the campaign.'),
+    'C04': dict(design='4 (C04)',
+        text='Theorems over every reachable state (invariant WF preserved by every micro-step, any inputs): a layer that is transmitting always has the timer that will end the wait running (C04_nowedge); Overflow aborts with OverflowError and failure completion (C04_overflow); Wait frames: wftmax=0 -> UnexpectedFlowControl-free abort, more than wftmax -> MaximumWaitFrameReachedError, otherwise the N_Bs timer restarts (C04_wait0/_wait_max/_wait_ok); no more than blocksize CFs leave without a new CTS (C04_block). Tied to /repo by exhaustive flow-control-letter sequences from 6 start states plus random ones, compared line by line with the extracted model.',
+        note='Termination is proved as "some timer is running in every non-idle tx state" plus the timeout theorems of C07; the bound on the number of process() passes is not proved.'),
+    'C05': dict(design='4 (C05)',
+        text='Theorems for every configuration, every reachable state and every input frame sequence: process() never raises and the model never reaches its crash value (C05_never_raises); reception reports only the documented error classes (C05_rx_errors_only); the structural invariant WF (13 conjuncts: timers/state agreement, buffer length below announced length, sequence number range, ...) holds in every reachable state (C05_invariant). Tied to /repo by random/garbage traffic campaigns with line-by-line model comparison.',
+        note='"Every delivered payload is justified by frames on the bus" (Justified) is checked by the campaign oracle on every run, not proved.'),
+    'C06': dict(design='4 (C06)',
+        text='One theorem per documented anomaly, for all states satisfying the stated precondition: the error class raised and the state afterwards (C06_undecodable, _missing_escape, _cf_idle, _wrong_seq, _sf_interrupt, _ff_too_long, _bad_ff_rxdl, _changing_rxdl) and C06_recovery: after any anomaly the receiver is in a state from which the next well-formed stream is reassembled (composition with C03). Tied to /repo by anomaly-injection campaigns at every stream position.',
+        note='Anomaly theorems are per-frame; their composition along arbitrary histories is by the invariant of C05 and the campaign.'),
+    'C07': dict(design='4 (C07)',
+        text='Theorems: the N_Cr timeout fires iff the receiver waits for a CF and strictly more than the configured time elapsed (or timeout 0) at a check (C07_rx_iff), with its exact effect (C07_rx_effect) and a CF arriving in time is accepted (C07_rx_accept); N_Bs fires only if really elapsed and does fire at the next pass (C07_tx_only_if, C07_tx_fires); idle states have no running protocol timer (C07_idle); the float ms->ns conversion of the implementation is within 1 ns below the exact value for every integer 0..20000 ms (C07_conversion, PrimFloat evaluation inside Coq). Tied to /repo by boundary-instant campaigns (deadline -1/0/+1 ns) on a virtual clock and the exhaustive to_ns table comparison.',
+        note='Time is the virtual clock, constant during one process() pass; OS timer jitter is outside the model. Print Assumptions lists only the PrimFloat/PrimInt63 primitives.'),
+    'C08': dict(design='4 (C08)',
+        text='Theorems: a CF leaves only when the STmin timer expired (C08_gate) and restarts it at that instant with the same duration (C08_restart); an accepted CTS programs the decoded STmin or the override (C08_programmed); the STmin byte table equals the documented one for all 256 bytes, float computation included (C08_table); STmin 0 never delays (C08_zero). Tied to /repo by campaigns measuring every inter-CF gap on the virtual clock for every STmin byte.',
+        note='The run-level statement "every gap >= stmin" is the composition gate+restart, checked on runs by the campaign; the composed inductive theorem is not stated.'),
+    'C09': dict(design='4 (C09)',
+        text='Theorems for all addresses / identifiers / frames: is_for_me <-> documented reception condition (C09_iff), rejected frames are no-ops of the reception loop (C09_ignore), emitted id/prefix are the documented ones and are accepted by the mirrored address for physical and functional target types (C09_emit_*, C09_mirror), Functional send accepted iff the payload fits a Single Frame and a refused send queues nothing (C09_func*), validation = documented table (C09_validate). The tie to /repo is the exhaustive-per-address table comparison and through-layer campaigns run on every check.',
+        note='identifiers quantified over 0 <= id < 2^29; "every emitted frame carries id/prefix" for frames held in rate-limiter standby relies on the tx invariant proved for C02.'),
+    'C12': dict(design='4 (C12)',
+        text='Theorems: in every reachable state the transmitter is idle iff no request is active (C12_idle_iff); protocol aborts, stop_sending and reset complete the active request (and for reset every queued one) with failure exactly there (C12_abort, C12_reset); an empty payload completes with success when dequeued (C12_empty); the only events a transmit pass can emit are frames, documented errors and completions (C12_tx_events). Tied to /repo by request-profile campaigns observing each request completion (exactly once, value, instant) line by line against the model, plus real-thread blocking_send scenarios.',
+        note='The blocking wait (threading.Event, worker thread) is exercised by threaded scenarios, not modelled; exactly-once over a whole history is an oracle of the campaign, the theorems give the per-step facts.'),
+    'C15': dict(design='4 (C15)',
+        text='Theorems: a disabled limiter never limits (C15_off); when enabled, allowance >= 0 and bits in the live window + 8*allowance <= bitrate*window (C15_allowance, exact rationals); every emitted frame adds exactly its data bits to the window (C15_accounting). Tied to /repo by sliding-window campaigns with an independent bound oracle and line-by-line model comparison on float-exact (bitrate, window) pairs.',
+        note='The sliding-window bound over a whole run and "never stalls" are campaign oracles; the model uses exact rationals, campaigns are restricted to parameter pairs where the float computation is exact.'),
+    'C16': dict(design='4 (C16)',
+        text='Theorems: Params.validate accepts exactly the documented set for every value of every key incl. wrong types and non-finite floats (C16_params_iff), Address validation = documented table (C16_address_iff), accepted parameters satisfy the side conditions used by all other proofs (C16_accepted_ok), an accepted configuration never crashes in process() (C16_nocrash) and send() either queues or reports ValueError (C16_send_total). Tied to /repo by pairwise-exhaustive + random address/params/set() campaigns against an independent documentation predicate and the extracted validate.',
+        note='Python values are abstracted to pv = None | int | bool | finite rational float | non-finite float | str | other; bool-for-int is outside the generated space.'),
+    'C17': dict(design='4 (C17)',
+        text='Theorems: one consume() pulls at most the requested number of bytes (C17_pull_bound); building the first frame pulls exactly the bytes it carries (C17_first_frame_pulls); a generator shorter than declared at the start gives BadGeneratorError, failure, nothing sent (C17_short_at_start). Tied to /repo by generator campaigns observing the pull count after every emitted frame.',
+        note='Laziness over a whole run (pulled <= carried so far + one frame) is the composition of the per-step bound, checked on runs.'),
+    'C18': dict(design='4 (C18)',
+        text='Theorems for every reachable state and any traffic: with listen_mode a pass emits no frame (C18_pass_silent) and no run of micro-steps does (C18_silent). Tied to /repo by tap campaigns comparing what a listener and a normal receiver deliver from the same conversation and asserting zero transmissions.',
+        note='"Hears the same" (same payloads as a normal receiver) is a campaign oracle + model correspondence, not a theorem.'),
+    'C19': dict(design='4 (C19)',
+        text='Theorems about the wrapper model against an independent kernel-struct specification: set_opts/set_fc_opts/set_ll_opts write exactly the documented little-endian layout with unchanged fields preserved and implied flags set (C19_set_opts, _flag_ext, _flag_txstmin, _flags_kept, _set_fc_opts, _set_ll_opts); out-of-range or wrongly typed arguments are ValueError and write nothing (C19_invalid, _invalid_arg, _fc_invalid). Tied to /repo by campaigns against a fake kernel socket recording every setsockopt byte string.',
+        note='The Linux kernel is represented by Spec/Kernel.v written from the can-isotp ABI; no real CAN_ISOTP socket exists in the sandbox.'),
+    'C20': dict(design='4 (C20)',
+        text='Theorems: bind passes ids with the EFF flag iff 29-bit and masked (C20_ids); the kernel-side interpretation of the resulting options accepts/emits exactly what the Python layer does for the same address (C20_ext, C20_plain); inconsistent asymmetric prefixes are refused (C20_refuse); option setters after bind and I/O before bind raise (C20_set_after_bind, C20_io_guard, C20_closed). Tied to /repo by campaigns over all addressing modes against the fake kernel socket.',
+        note='Same kernel abstraction as C19.'),
 }
-REASONS = {}
+REASONS = {
+    'C01': 'two-peer campaign exists (harness/props/C01.py) but the joint theorem file Props/C01.v is not yet committed; see DESIGN.md',
+    'C10': 'two-peer duplex campaign exists (harness/props/C10.py) but Props/C10.v is not yet committed; see DESIGN.md',
+    'C11': 'fault-injection campaign exists (harness/props/C11.py) but Props/C11.v is not yet committed; see DESIGN.md',
+    'C13': 'threaded model and campaign under construction',
+    'C14': 'lifecycle model and campaign under construction',
+}
 
 checks = []
 na = []
